@@ -1,0 +1,21 @@
+// +build !verif
+
+// Package verifhook provides observation and fault-injection points for external
+// verification harnesses. Without the "verif" build tag every function is an empty,
+// inlinable no-op.
+package verifhook
+
+// Enabled reports whether the hooks are compiled in.
+const Enabled = false
+
+// Point marks a named program point.
+func Point(site string) {}
+
+// Yield marks a preemption point between two critical sections.
+func Yield(site string) {}
+
+// Tear gives the harness a chance to shorten a buffer right before it is written.
+func Tear(site string, buf []byte) []byte { return buf }
+
+// Event reports a named event with optional key/value details.
+func Event(site string, kv ...interface{}) {}
